@@ -694,6 +694,54 @@ func writePathCalls(e *env) ([]string, error) {
 	return evs, nil
 }
 
+// callerFiles: the files (outside vendor/ and *_test.go) that contain a call x.<method>(...); with mustContain != "" only
+// files whose text contains it are considered (for method names shared with other types)
+func callerFiles(e *env, method, mustContain string) ([]string, error) {
+	seen := map[string]bool{}
+	err := filepath.Walk(e.repo, func(p string, info os.FileInfo, err error) error {
+		if err != nil {
+			return nil
+		}
+		if info.IsDir() {
+			b := info.Name()
+			if b == "vendor" || b == ".git" || b == "node_modules" {
+				return filepath.SkipDir
+			}
+			return nil
+		}
+		if !strings.HasSuffix(p, ".go") || strings.HasSuffix(p, "_test.go") {
+			return nil
+		}
+		src, err := os.ReadFile(p)
+		if err != nil || !bytes.Contains(src, []byte(method)) || (mustContain != "" && !bytes.Contains(src, []byte(mustContain))) {
+			return nil
+		}
+		rel, _ := filepath.Rel(e.repo, p)
+		f, err := e.parse(rel)
+		if err != nil {
+			return fmt.Errorf("cannot parse %s: %v", rel, err)
+		}
+		ast.Inspect(f, func(n ast.Node) bool {
+			if c, ok := n.(*ast.CallExpr); ok {
+				if se, ok := c.Fun.(*ast.SelectorExpr); ok && se.Sel.Name == method {
+					if _, isIdent := se.X.(*ast.Ident); isIdent || mustContain == "" {
+						// with mustContain (a shared method name) only calls on a plain variable count
+						seen[filepath.ToSlash(rel)] = true
+					}
+				}
+			}
+			return true
+		})
+		return nil
+	})
+	var out []string
+	for k := range seen {
+		out = append(out, k)
+	}
+	sort.Strings(out)
+	return out, err
+}
+
 func init() {
 	register("FilePVCheck", func(e *env) (string, error) {
 		var sb strings.Builder
@@ -737,6 +785,15 @@ func init() {
 		}
 		sb.WriteString("\n/-- `cmn.WriteFileAtomic`: every selector call in source order as (what happens to its error, receiver, function): checked = assigned to `err`, returned, unchecked = result dropped, dropped = error position `_`, defer, go, nested -/\ndef writeFileAtomicCalls : List (String × String × String) := [" + strings.Join(triples, ", ") + "]\n")
 		e.facts = append(e.facts, fact{Module: "FilePVCheck", Kind: "callorder", Name: "WriteFileAtomic", Value: wevs})
+		for _, m := range [][3]string{{"SignData", "", "signDataCallerFiles"}, {"SignHeartbeat", "", "signHeartbeatCallerFiles"},
+			{"UpdatePrikey", "", "updatePrikeyCallerFiles"}, {"Reset", "FilePV", "resetCallerFiles"}} {
+			fs, err := callerFiles(e, m[0], m[1])
+			if err != nil {
+				return "", err
+			}
+			sb.WriteString("\n/-- files outside vendor/ and *_test.go with a call of `" + m[0] + "` -/\ndef " + m[2] + " : List String := " + leanStrList(fs) + "\n")
+			e.facts = append(e.facts, fact{Module: "FilePVCheck", Kind: "nocaller", Name: m[0], Value: fs})
+		}
 		callers, err := nonTestCallers(e, "SignVoteWithoutSave")
 		if err != nil {
 			return "", err
